@@ -6,6 +6,7 @@ decodes and on which the model runs.  Cites `C03.decode_raw_valid` and `C03.agre
 import DSymVerif.Props.C03
 import DSymVerif.Driver.C09View
 import DSymVerif.Proofs.FundGroupSpecB
+import DSymVerif.Proofs.FundGroupSpecCongr
 
 namespace DSymVerif.FGP
 open DSymVerif DSymVerif.DS DSymVerif.SpecC02 DSymVerif.DrvC09View
@@ -31,5 +32,23 @@ theorem specG_agrees (r : Proto.RawSym) (h : inDomain r = true) :
   · intro i d hi h1 h2
     rw [gOf_v hs.toValidTables hi h1 h2]
     exact ev i d hi h1 h2
+
+/-- the driver's graph and the graph of the decoded symbol agree wherever a symbol is defined -/
+theorem specG_gagree (r : Proto.RawSym) (h : inDomain r = true) :
+    ∃ ds, r.toSym = .ok ds ∧ ValidSym ds ∧ 1 ≤ ds.size ∧ 1 ≤ ds.dim ∧
+      ds.view.isConnected = true ∧ GAgree (specG r) (gOf ds) := by
+  obtain ⟨ds, hdec, hs, hsz, hdim, hcon, e1, e2, eop, ev⟩ := specG_agrees r h
+  refine ⟨ds, hdec, hs, hsz, hdim, hcon, e1, e2, eop, ev, ?_⟩
+  intro i d hi h1 h2
+  rw [gOf_op]
+  exact hs.set.range i d hi h1 h2
+
+/-- … hence the Spec builds literally the same textbook presentation from both -/
+theorem specG_textbook (r : Proto.RawSym) (h : inDomain r = true) :
+    ∃ ds, r.toSym = .ok ds ∧ ValidSym ds ∧ 1 ≤ ds.size ∧ 1 ≤ ds.dim ∧
+      ds.view.isConnected = true ∧
+      SpecC09.textbook (specG r) = SpecC09.textbook (gOf ds) := by
+  obtain ⟨ds, hdec, hs, hsz, hdim, hcon, hag⟩ := specG_gagree r h
+  exact ⟨ds, hdec, hs, hsz, hdim, hcon, textbook_congr hag hsz⟩
 
 end DSymVerif.FGP
